@@ -186,18 +186,3 @@ DESCR += [(r"c03_._content_length_len", "parse_content_length on every header va
           (r"c03_._content_length_\d+digits", "parse_content_length on every n-digit value: exact or refused, never wrapped"),
           (r"c03_._decide", "BodyReader::new on a header map built from the named Content-Length / Transfer-Encoding fields: framing variant and length"),
           (r"c03_._bodiless", "parse_response for HEAD / 1xx / 204 / 304 with stray bytes after the head: body must read as empty")]
-
-PROPS["C15"] = dict(
-    features=["multipart-form"],
-    filters={"quick": ["c15_q", "c15_qtwin"], "thorough": ["c15_"]},
-    timeout_s={"quick": 600, "thorough": 2400},
-    mem_gb=20,
-    kernel=["multipart_crate::lazy::PreparedFields::{read,boundary,from_fields (empty form)}", "PreparedField::read", "cursor_at_end"],
-    bounds="PreparedFields constructed directly with a text block of 0..3, up to two streams (header 0..3, data 0..5 bytes) and an end boundary of 0..4 symbolic bytes; caller read buffers 1,2,3,7,8; the empty form through the real from_fields",
-    level_note="PARTIAL (plan B of DESIGN.md): the copy state machine and the empty-form path are decided; the part layout written by from_fields (delimiter lines, Content-Disposition text) is NOT decided: it is built with format!/write! over Display arguments, which CBMC's symbolic execution does not get through (> 700 s). 'The boundary does not occur inside the data' is probabilistic (62^-16) and not decided.",
-    outside="layout of part headers; files added by path (FFI); data beyond 5 bytes per part",
-    stubs=["multipart_crate::gen_boundary -> fixed 16-character boundary"],
-    assumptions=[],
-)
-DESCR += [(r"c15_._read", "directly constructed PreparedFields (symbolic bytes) read to the end with a fixed caller buffer size: output equals text, streams (last first), end boundary, each once"),
-          (r"c15_._empty_form", "empty form through from_fields + boundary(): no panic, boundary returned")]
